@@ -375,16 +375,19 @@ def hIter : Handler := handler fun args =>
     | none => pure (.list [.sym "out-of-fuel"])
   | _ => none
 
-/-- `(rw-rewrite rules term top_level|bottom_up)` -/
+/-- `(rw-rewrite rules term strategy|none)` ↦ `(ok term)` | `(KeyError)` | `(out-of-fuel)`; `none` = argument omitted -/
 def hRewrite : Handler := handler fun args =>
   match args with
-  | [rs, t, .sym strat] => do
+  | [rs, t, strat] => do
     let rules ← toRules? rs
     let t ← toTerm? t
-    let r := if strat == "top_level" then rewriteTop rules t else bottomUp rules t
-    match r with
-    | some t' => pure (.list [.sym "ok", ofTerm t'])
-    | none => pure (.list [.sym "out-of-fuel"])
+    let st ← match strat with
+      | .sym "none" => some none
+      | e => e.toStr?.map some
+    match rewrite rules t st with
+    | .ok t' => pure (.list [.sym "ok", ofTerm t'])
+    | .keyError => pure (.list [.sym "KeyError"])
+    | .outOfFuel => pure (.list [.sym "out-of-fuel"])
   | _ => none
 
 /-- `(rw-process (varlist…) (syms…))` -/
